@@ -49,9 +49,18 @@ type termCase struct {
 
 // Terms holds what TLC printed from AgeFormatGen.
 type Terms struct {
-	Cases   []termCase
-	Reading map[string]json.RawMessage
-	Forge   map[string]json.RawMessage
+	Cases       []termCase
+	Reading     map[string]json.RawMessage
+	Forge       map[string]json.RawMessage
+	ForgeScrypt []json.RawMessage // index logN-1
+	Payload     json.RawMessage
+}
+
+// Stanza is a forged stanza term.
+type Stanza struct {
+	Type string            `json:"type"`
+	Args []json.RawMessage `json:"args"`
+	Body json.RawMessage   `json:"body"`
 }
 
 func rsSig(rs []rcp) string {
@@ -84,6 +93,12 @@ func LoadTerms(run *vk.Run, maxRecips, wf int) *Terms {
 	}
 	json.Unmarshal([]byte(rd[0]), &t.Reading)
 	json.Unmarshal([]byte(fg[0]), &t.Forge)
+	if fs := res.PrintsWithPrefix("FORGESCRYPT "); len(fs) == 1 {
+		json.Unmarshal([]byte(fs[0]), &t.ForgeScrypt)
+	}
+	if pl := res.PrintsWithPrefix("PAYLOAD "); len(pl) == 1 {
+		t.Payload = json.RawMessage(pl[0])
+	}
 	return t
 }
 
